@@ -170,7 +170,7 @@ REGISTRY.add(Contract(
         "implies(t is not None, t >= 0)",
     ],
     raises={"ValueError": ["t is not None", "not (t >= 0)", "len(log) == 0"]},
-    canaries=["result == 7777"], replay=None,
+    canaries=["result == 7777"], replay="c15:pwait",
     note="negative timeout -> ValueError before anything; the exit code is cached and returned on every later call"))
 
 
